@@ -115,6 +115,7 @@ pub struct Ctx {
 
 #[derive(Default)]
 struct Samples {
+    any: Option<Value>,
     first: Option<Value>,
     largest: Option<(usize, Value)>,
     lowhash: Vec<(u64, Value)>,
@@ -271,6 +272,12 @@ impl Ctx {
         for k in &out.known_hits {
             self.known_hit(k);
         }
+        if !out.nontrivial {
+            let mut s = self.samples.lock().unwrap();
+            if s.any.is_none() {
+                s.any = Some(json!({"sub": sub, "trivial": true, "case": serde_json::to_value(case).unwrap_or(Value::Null)}));
+            }
+        }
         if out.nontrivial {
             let bytes = serde_json::to_vec(case).unwrap_or_default();
             let h = hash64(&(sub, &bytes));
@@ -347,6 +354,11 @@ impl Ctx {
             samples.push(clip_sample(v.clone()));
         }
         samples.dedup();
+        if samples.is_empty() {
+            if let Some(a) = &s.any {
+                samples.push(clip_sample(a.clone()));
+            }
+        }
         let classes: BTreeMap<String, u64> = self.classes.lock().unwrap().clone();
         let excluded: BTreeMap<String, u64> = self.excluded.lock().unwrap().clone();
         let known_hits: BTreeMap<String, u64> = self.known_hits.lock().unwrap().clone();
